@@ -94,6 +94,24 @@ def replay_resheader(chk, quick):
 
 
 # ---------------- whole parsers on mutated inputs ----------------
+def with_hiddenapi(d, declared_extra=0, body=b""):
+    """DEX `d` (map list at the end of the file) with a hiddenapi_class_data_item (map type 0xF000) behind the map: no class has
+    flags (all offsets 0); `declared_extra` is added to the size the section declares; checksum not recomputed here"""
+    moff = struct.unpack_from("<I", d, 0x34)[0]
+    n = struct.unpack_from("<I", d, moff)[0]
+    ents = [list(struct.unpack_from("<HHII", d, moff + 4 + 12 * i)) for i in range(n)]
+    ncls = struct.unpack_from("<I", d, 0x60)[0]
+    newmap_len = 4 + 12 * (n + 1)
+    hoff = moff + newmap_len
+    section = struct.pack("<I", 4 + 4 * ncls + len(body) + declared_extra) + b"\0" * (4 * ncls) + body
+    ents.append([0xF000, 0, 1, hoff])
+    newmap = struct.pack("<I", n + 1) + b"".join(struct.pack("<HHII", *e) for e in sorted(ents, key=lambda e: e[3]))
+    b = bytearray(d[:moff] + newmap + section)
+    struct.pack_into("<I", b, 0x20, len(b))
+    struct.pack_into("<I", b, 0x68, len(b) - struct.unpack_from("<I", b, 0x6C)[0])
+    return bytes(b)
+
+
 def seeds(rnd):
     from ..axmlgen import Axml
     from . import c17, c31, c32, c33
@@ -102,6 +120,8 @@ def seeds(rnd):
     for f in ("Test.dex", "FillArrays.dex", "ExceptionHandling.dex", "StringTests.dex"):
         out.append(("dex", open("/repo/tests/data/APK/" + f, "rb").read(), f))
     out.append(("dex", c17.universe(), "generated"))
+    from ..dexgen import fix
+    out.append(("dex", bytes(fix(bytearray(with_hiddenapi(c17.universe())))), "generated-with-hiddenapi-section"))
     m = c31.random_manifest(rnd)
     m["vcodetext"] = "1"
     out.append(("axml", Axml(c31.manifest_doc(m), [("android", c31.U)], False).build(), "generated-utf16"))
@@ -173,6 +193,10 @@ def crafted():
     b = bytearray(d)
     tail = bytes(x or 1 for x in b[last + 1:])
     out.append(("dex", bytes(b[:last + 1]) + tail, "crafted:no-zero-behind-last-string"))
+    # a hidden-api section (another variant of the format with a loop of its own) whose declared size reaches past the end of the file
+    for extra in (0, 4, 8, 1000, 0x7FFFFFF0):
+        out.append(("dex", with_hiddenapi(d, declared_extra=extra), "crafted:hiddenapi-size+%d" % extra))
+    out.append(("dex", with_hiddenapi(d, body=b"\x80" * 40), "crafted:hiddenapi-unterminated-flags"))
     # binary XML whose names are long runs of valid name characters with an invalid one at the end / in the middle / dotted:
     # the time to clean a name up must not depend on where the invalid character sits (no event budget sees a regular
     # expression backtracking: these inputs are bounded by the wall-clock alarm only)
